@@ -10,6 +10,12 @@ def runeError : Nat := 0xFFFD
 
 def isCont (b : UInt8) : Bool := 0x80 ≤ b && b ≤ 0xBF
 
+/-- `acceptRanges`: bounds of the second byte -/
+def lo3 (c0 : Nat) : UInt8 := if c0 == 0xE0 then 0xA0 else 0x80
+def hi3 (c0 : Nat) : UInt8 := if c0 == 0xED then 0x9F else 0xBF
+def lo4 (c0 : Nat) : UInt8 := if c0 == 0xF0 then 0x90 else 0x80
+def hi4 (c0 : Nat) : UInt8 := if c0 == 0xF4 then 0x8F else 0xBF
+
 def decodeRune : Bytes → Nat × Nat
   | [] => (runeError, 0)
   | b0 :: r =>
@@ -24,18 +30,14 @@ def decodeRune : Bytes → Nat × Nat
     else if c0 < 0xF0 then
       match r with
       | b1 :: b2 :: _ =>
-        let lo : UInt8 := if c0 == 0xE0 then 0xA0 else 0x80
-        let hi : UInt8 := if c0 == 0xED then 0x9F else 0xBF
-        if lo ≤ b1 && b1 ≤ hi && isCont b2 then
+        if lo3 c0 ≤ b1 && b1 ≤ hi3 c0 && isCont b2 then
           (((c0 &&& 0x0F) <<< 12) ||| ((b1.toNat &&& 0x3F) <<< 6) ||| (b2.toNat &&& 0x3F), 3)
         else (runeError, 1)
       | _ => (runeError, 1)
     else if c0 < 0xF5 then
       match r with
       | b1 :: b2 :: b3 :: _ =>
-        let lo : UInt8 := if c0 == 0xF0 then 0x90 else 0x80
-        let hi : UInt8 := if c0 == 0xF4 then 0x8F else 0xBF
-        if lo ≤ b1 && b1 ≤ hi && isCont b2 && isCont b3 then
+        if lo4 c0 ≤ b1 && b1 ≤ hi4 c0 && isCont b2 && isCont b3 then
           (((c0 &&& 0x07) <<< 18) ||| ((b1.toNat &&& 0x3F) <<< 12) ||| ((b2.toNat &&& 0x3F) <<< 6)
             ||| (b3.toNat &&& 0x3F), 4)
         else (runeError, 1)
